@@ -133,10 +133,9 @@ NONDYADIC = [(((0, 1), (0, 0)), -1.2524635735648981), (((2, 1), (2, 0)), -0.4759
              (((0, 1), (2, 0)), 0.1812104620151171), (((2, 1), (0, 0)), 0.1812104620151171)]
 
 
-def run(ck):
+def run_hcb_stream(ck):
     quick = ck.tier == "quick"
     rng = ck.rng
-    # ---------------- HCB: correspondence + oracle
     ck.stream("hcb", "restricted molecular Hamiltonians from random dyadic integrals (8-fold symmetry), 1-3 (quick) / "
               "1-4 spatial orbitals: fermion_to_qubit_mapping(op, 'HCB') = model (exact) and spectrum on the "
               "seniority-zero space, up_then_down False and True; non-trivial = >= 2 spatial orbitals")
@@ -151,15 +150,27 @@ def run(ck):
         if all(M.dyadic(c) is not None for _, c in terms):
             exprs.append("run_hcb %s" % M.coq_fop(terms))
             impls.append((terms, n_mo, r))
-    model = ck.coq_eval("hcb", M.PREAMBLE, exprs, shard=20)
+    try:
+        model = ck.coq_eval("hcb", M.PREAMBLE, exprs, shard=20)
+    except Exception as e:
+        ck.violation("C03/model-evaluation/hcb", "the Coq model could not be evaluated: %s" % str(e)[-600:],
+                     {"kind": "model-eval", "stream": "hcb", "error": str(e)[-3000:]}, found_input=False)
+        model = [None] * len(exprs)
     for (terms, n_mo, r), ms in zip(impls, model):
         ck.case("hcb", json.dumps([n_mo, str(terms)]), nontrivial=n_mo >= 2,
-                sample={"n_mo": n_mo, "n_terms": len(terms), "impl": str(r)[:300], "model": ms[:300]}, tags=["n_mo=%d" % n_mo])
+                sample={"n_mo": n_mo, "n_terms": len(terms), "impl": str(r)[:300], "model": (ms or "not evaluated")[:300]},
+                tags=["n_mo=%d" % n_mo])
+        if ms is None:
+            continue
         mod = M.parse_model("Ok " + ms)
         if r[0] != "Ok" or M.dict_diff(r[1], mod[1]):
             ck.violation("C03/HCB/correspondence", "model and implementation differ (n_mo=%d): impl %s model %s"
                          % (n_mo, str(r)[:300], ms[:300]), {"kind": "hcb-corr", "n_mo": n_mo, "terms": repr(terms)}, found_input=False)
-    # ---------------- combinatorial: oracle
+
+
+def run_comb_stream(ck):
+    quick = ck.tier == "quick"
+    rng = ck.rng
     ck.stream("combinatorial", "molecular and general Hermitian number-/spin-conserving Hamiltonians (dyadic), 2-3 spatial "
               "orbitals, every (n_alpha, n_beta) incl. one-configuration sectors: spectrum on the configuration "
               "basis vs sector spectrum (tol 1e-7 exact-dyadic), padding decoupled; one non-dyadic Hamiltonian at "
@@ -167,6 +178,7 @@ def run(ck):
     for _ in range(12 if quick else 120):
         n_mo = rng.choice([2, 2, 3])
         terms = gen_molecular(rng, n_mo) if rng.random() < 0.5 else M.gen_hamiltonian(rng, 2 * n_mo)
+        terms = [(t, c) for t, c in M.make_fop(terms).terms.items()]
         secs = [(a, b) for a in range(n_mo + 1) for b in range(n_mo + 1)]
         for na, nb in (secs if not quick else rng.sample(secs, 4) + [(n_mo, n_mo)]):
             ck.case("combinatorial", json.dumps([n_mo, na, nb, str(terms)]), nontrivial=0 < na + nb < 2 * n_mo,
@@ -174,6 +186,11 @@ def run(ck):
             comb_oracle(ck, terms, n_mo, na, nb, 1e-7, "C03/combinatorial/spectrum")
     ck.case("combinatorial", "non-dyadic", nontrivial=True, tags=["non-dyadic"])
     comb_oracle(ck, NONDYADIC, 2, 1, 0, 1e-9, "C03/combinatorial/single-precision")
+
+
+def run(ck):
+    run_hcb_stream(ck)
+    run_comb_stream(ck)
 
 
 def replay(r):
